@@ -1,4 +1,4 @@
-\* 24 factors (2-4 values each); 40 random candidates per greedy step
+\* 25 factors (2-4 values each); 40 random candidates per greedy step
 CONSTANTS Cand = 40
 SPECIFICATION Spec
 INVARIANTS PairwiseCovered RotationsCover SinglesCover DefaultsInDomain Dump
